@@ -204,3 +204,86 @@ def canary(env):
     op = env.load(OPS); T = env.T
     X = env.unitquat('X', regimes=QREG)
     env.eq('log_of_inverse_is_log', op.SO3_Log.forward(op.SO3_Inv.forward(X)), op.SO3_Log.forward(X))
+
+
+@bounded('C02.float_roundtrip', functions=[f'{OPS}:SO3_Log.forward', f'{OPS}:SE3_Log.forward', f'{OPS}:RxSO3_Log.forward', f'{OPS}:Sim3_Log.forward'])
+def float_roundtrip(rng, tier):
+    """float32/float64: Exp(Log X) is the same transformation, |rot Log X| <= pi, Log(-q) = Log(q) away from pi, Log(Inv X) = -Log X,
+    Log(Exp x) = x for |rot x| < pi; quaternions in both hemispheres, |w| within eps of 0, |v| within eps of 0, angles dense near 0 and pi,
+    scales in [e^-8, e^8]"""
+    import torch, math, pypose as pp
+    N = 120 if tier == 'quick' else 1500
+    fails = []; evals = 0; samples = []
+    def quat(eps):
+        ax = [rng.gauss(0, 1) for _ in range(3)]; n = math.sqrt(sum(a * a for a in ax)); ax = [a / n for a in ax]
+        kind = rng.choice(['generic', 'near0', 'nearpi', 'w_eps', 'v_eps', 'neg'])
+        if kind == 'generic': ang = rng.uniform(-math.pi, math.pi)
+        elif kind == 'near0': ang = rng.choice([0.0, eps * 0.5, eps * 2, math.sqrt(eps), 1e-5])
+        elif kind == 'nearpi': ang = math.pi - rng.choice([0.0, 1e-12, 1e-9, 1e-6, 1e-3])
+        elif kind == 'w_eps': ang = math.pi - 2 * rng.choice([eps * 0.3, eps * 0.9, eps * 1.1, eps * 3])
+        elif kind == 'v_eps': ang = 2 * rng.choice([eps * 0.3, eps * 0.9, eps * 1.1, eps * 3])
+        else: ang = rng.uniform(math.pi, 2 * math.pi)
+        s, c = math.sin(ang / 2), math.cos(ang / 2)
+        return [ax[0] * s, ax[1] * s, ax[2] * s, c], kind
+    for g in ('SO3', 'SE3', 'RxSO3', 'Sim3'):
+        for dtype in (torch.float64, torch.float32):
+            eps = torch.finfo(dtype).eps
+            tol = 256 * eps; tolt = 64 * math.sqrt(eps)
+            for k in range(N):
+                q, kind = quat(eps)
+                t = [rng.gauss(0, 1) * rng.choice([0, 1e-3, 1, 50]) for _ in range(3)]
+                s = [math.exp(rng.uniform(-8, 8))]
+                data = {'SO3': q, 'SE3': t + q, 'RxSO3': q + s, 'Sim3': t + q + s}[g]
+                X = pp.LieTensor(torch.tensor(data, dtype=dtype), ltype=getattr(pp, g + '_type'))
+                x = X.Log(); evals += 1
+                xt = x.tensor().double()
+                rot = xt[3:6] if g in ('SE3', 'Sim3') else xt[0:3]
+                sig = f'{g}/{str(dtype).split(".")[-1]}/{kind}'
+                if not bool(torch.isfinite(xt).all()):
+                    fails.append(dict(clause='log_finite', signature=sig, q=q)); continue
+                if float(rot.norm()) > math.pi * (1 + 8 * eps):
+                    fails.append(dict(clause='log_rotation_norm_at_most_pi', signature=sig, norm=float(rot.norm())))
+                M1, M0 = x.Exp().matrix().double(), X.matrix().double()
+                scale_m = float(M0[:3, :3].abs().max())
+                if float((M1[:3, :3] - M0[:3, :3]).abs().max()) > tol * scale_m * 4:
+                    fails.append(dict(clause='exp_log_same_rotation_scale', signature=sig, err=float((M1[:3, :3] - M0[:3, :3]).abs().max()) / scale_m, q=q))
+                if g in ('SE3', 'Sim3'):
+                    tn = float(M0[:3, 3].abs().max())
+                    if tn > 0 and float((M1[:3, 3] - M0[:3, 3]).abs().max()) > tolt * tn and kind not in ('w_eps', 'nearpi'):
+                        fails.append(dict(clause='exp_log_same_translation', signature=sig, err=float((M1[:3, 3] - M0[:3, 3]).abs().max()) / tn, q=q))
+                li = X.Inv().Log().tensor().double()
+                if kind not in ('nearpi', 'w_eps') and float((li + xt).abs().max()) > tolt * (1 + float(xt.abs().max())):
+                    fails.append(dict(clause='log_of_inverse_is_minus_log', signature=sig, err=float((li + xt).abs().max())))
+                if kind in ('generic', 'near0', 'neg', 'v_eps'):
+                    d2 = list(data); o = 3 if g in ('SE3', 'Sim3') else 0
+                    for j in range(4): d2[o + j] = -d2[o + j]
+                    x2 = pp.LieTensor(torch.tensor(d2, dtype=dtype), ltype=X.ltype).Log().tensor().double()
+                    if float((x2 - xt).abs().max()) > tolt * (1 + float(xt.abs().max())):
+                        fails.append(dict(clause='log_of_negated_quaternion', signature=sig, err=float((x2 - xt).abs().max())))
+                if k < 1: samples.append(dict(type=g, kind=kind))
+            # Log(Exp x) = x
+            probes = []
+            if g == 'Sim3':       # directed probes of the corner regimes recorded as known findings (same as C01)
+                probes = [[0.3, -0.2, 0.5, 0.2 * eps, -0.5 * eps, 0.1 * eps, 1.7 * eps], [0.3, -0.2, 0.5, 0, 0.9 * eps, 0, -3.1 * eps],
+                          [0.3, -0.2, 0.5, 2 * eps, -3 * eps, 1 * eps, 2.5 * eps], [0.3, -0.2, 0.5, 40 * eps, 10 * eps, -20 * eps, 30 * eps]]
+            for k in range(N // 2 + len(probes)):
+                from contracts import floatacc as FA
+                a = S.ALG[g]
+                xv = probes[k - N // 2] if k >= N // 2 else FA.sample_algebra(rng, a, eps)
+                rv = xv[3:6] if g in ('SE3', 'Sim3') else xv[0:3]
+                rn = math.sqrt(sum(v * v for v in rv))
+                if rn >= math.pi - 1e-2: continue
+                xx = pp.LieTensor(torch.tensor(xv, dtype=dtype), ltype=getattr(pp, a + '_type'))
+                y = xx.Exp().Log().tensor().double(); evals += 1
+                ref = xx.tensor().double()
+                err = float((y - ref).abs().max()) / (1e-300 + max(1.0, float(ref.abs().max())))
+                if err > tolt:
+                    th_ = 'theta<=eps' if rn <= eps else ('theta in (eps,sqrt(eps)]' if rn <= math.sqrt(eps) else 'theta>sqrt(eps)')
+                    sg_ = '' if g in ('SO3', 'SE3') else (',|sigma|>eps' if abs(xv[-1]) > eps else ',|sigma|<=eps')
+                    fails.append(dict(clause='log_exp_is_identity', signature=f'{a}/{str(dtype).split(".")[-1]}/{th_}{sg_}', err=err, x=xv))
+    best = {}
+    for f in fails:
+        kk = (f['clause'], f['signature'])
+        if kk not in best or f.get('err', 0) > best[kk].get('err', 0): best[kk] = f
+    return dict(evaluations=evals, distinct_nontrivial=evals, rule='random valid group elements over the stated quaternion kinds, translations and scales; all distinct',
+                bound=f'{N} elements per (type, dtype)', failures=list(best.values())[:12], samples=samples[:4])
